@@ -139,3 +139,51 @@ example : calcCc 1000000 64 32 false = (1, 48576) := by decide
 example : calcCc 1048000 64 32 true = (2, 1049152) := by decide
 
 end Pycdlib.Hybrid
+
+namespace Pycdlib.Hybrid
+
+/-- **C12 (MBR geometry)**: the ending CHS fields of the active partition decode, by the MBR rules (cylinder = two high
+bits of the sector byte and the cylinder byte, sector = low six bits), to the last cylinder of the padded image and the
+last sector of a track, for every geometry and every cylinder count the clamp lets through. -/
+theorem end_chs_decodes (cc heads sectors offset : Nat) (hcc : 1 ≤ cc ∧ cc ≤ 1024) (hs : 1 ≤ sectors ∧ sectors ≤ 63)
+    (hh : 1 ≤ heads ∧ heads ≤ 256) :
+    let f := endFields cc heads sectors offset
+    f.2.1 < 256 ∧ f.2.2.1 < 256 ∧ f.1 < 256 ∧
+    f.2.1 % 64 = sectors ∧ f.2.1 / 64 * 256 + f.2.2.1 = cc - 1 ∧ f.1 = heads - 1 := by
+  dsimp only [endFields]
+  have hb : (sectors + (cc - 1) % 1024 / 256 * 64) % 64 = sectors := by omega
+  have hd : (sectors + (cc - 1) % 1024 / 256 * 64) / 64 = (cc - 1) / 256 := by omega
+  refine ⟨by omega, by omega, by omega, hb, ?_, rfl⟩
+  rw [hd]; omega
+
+/-- the starting CHS fields decode to the partition offset (in sectors) for every offset below 1024 cylinders -/
+theorem start_chs_decodes (offset heads sectors : Nat) (hs : 1 ≤ sectors ∧ sectors ≤ 63) (hh : 1 ≤ heads ∧ heads ≤ 256)
+    (ho : offset < 1024 * (heads * sectors)) :
+    let f := startChs offset heads sectors
+    f.2.1 % 64 - 1 + sectors * (f.1 + heads * (f.2.1 / 64 * 256 + f.2.2)) = offset ∧ 1 ≤ f.2.1 % 64 ∧ f.1 < heads := by
+  simp only [startChs]
+  have hpos : 0 < sectors := by omega
+  have hposh : 0 < heads := by omega
+  have h1 := Nat.div_add_mod offset sectors
+  have h2 := Nat.div_add_mod (offset / sectors) heads
+  have h3 : offset / (heads * sectors) = offset / sectors / heads := by
+    rw [Nat.mul_comm, Nat.div_div_eq_div_mul]
+  have hm : offset % sectors < sectors := Nat.mod_lt _ hpos
+  have hc : offset / (heads * sectors) < 1024 := by
+    apply Nat.div_lt_of_lt_mul; rw [Nat.mul_comm]; exact ho
+  rw [h3] at hc ⊢
+  generalize offset / sectors / heads = cyl at *
+  generalize hq : offset / sectors = q at *
+  have hmh : q % heads < heads := Nat.mod_lt _ hposh
+  have hb : (offset % sectors + 1 + cyl % 1024 / 256 * 64) % 64 = offset % sectors + 1 := by omega
+  have hd : (offset % sectors + 1 + cyl % 1024 / 256 * 64) / 64 = cyl / 256 := by omega
+  rw [hb, hd]
+  refine ⟨?_, by omega, hmh⟩
+  have : cyl / 256 * 256 + cyl % 256 = cyl := by omega
+  rw [this]
+  have e0 : q % heads + heads * cyl = q := by
+    rw [Nat.add_comm]; exact h2
+  rw [e0]
+  omega
+
+end Pycdlib.Hybrid
